@@ -174,6 +174,7 @@ pub fn run(a: &Args) {
     st.notes.push(format!("futures dropped: {} in total, up to {} in one session; pending polls seen: {}", cx.total_dropped, cx.max_dropped, cx.total_pending));
     st.sample("async C 0 f:030000:K:0 f:030703:O:1 | N D0103 N D0000 N D0103 N D0703 N Z | p a0 p a1 p p a0 | 0110100".into());
     { let c2 = crate::conv::async_conversations("C19", a, &mut rng, &mut st, &mut out); st.distinct_nontrivial += c2.distinct.len() as u64; }
+    crate::net::report_unconsumed("C19", &mut st);
     out.finish(&st);
 }
 
